@@ -1,8 +1,484 @@
-//! C19 — stub, to be written.
+//! C19: operations are pure, deterministic and safe to run concurrently on shared Bdds; Bdd,
+//! variable-set and valuation values are Send and Sync.
+//!
+//! (1) compile-time `Send + Sync` instantiations (a type losing them stops this file from building);
+//! (2) programs of library operations over a shared `Arc<Vec<Bdd>>` + `Arc<BddVariableSet>` are run
+//!     sequentially in the main thread, concurrently (one real thread per program, released together
+//!     by a barrier), sequentially once more, and once more in a CHILD PROCESS (`c19 single`, other
+//!     `RandomState` seeds); the texts of all results of the first run and the hashes of all results
+//!     of the other runs are written; the pool is printed again after everything.
+#![allow(deprecated)]
 #[path = "../common.rs"]
 mod common;
+use biodivine_lib_bdd::boolean_expression::BooleanExpression;
+use biodivine_lib_bdd::*;
 use common::*;
+use std::io::{Read, Write};
+use std::process::{Command, Stdio};
+use std::sync::{Arc, Barrier};
 
-pub fn run(key: &str, _a: &[String], _out: &mut Out) { panic!("unknown key {}", key) }
-pub fn gen(_tier: Tier, _rng: &mut Rng64, _out: &mut Out) {}
-fn main() { harness_main(gen, run) }
+fn s(x: &str) -> String { x.to_string() }
+
+// ------------------------------------------------------------------------------------------------
+// (1) Send + Sync, checked by the compiler
+
+fn assert_send_sync<T: Send + Sync>() -> &'static str { std::any::type_name::<T>() }
+
+fn type_assertions() -> Vec<&'static str> {
+    vec![
+        assert_send_sync::<Bdd>(),
+        assert_send_sync::<BddVariableSet>(),
+        assert_send_sync::<BddVariableSetBuilder>(),
+        assert_send_sync::<BddValuation>(),
+        assert_send_sync::<BddPartialValuation>(),
+        assert_send_sync::<BddVariable>(),
+        assert_send_sync::<BddPointer>(),
+        assert_send_sync::<BddNode>(),
+        assert_send_sync::<BooleanExpression>(),
+        assert_send_sync::<BddSatisfyingValuations<'static>>(),
+        assert_send_sync::<OwnedBddSatisfyingValuations>(),
+        assert_send_sync::<BddPathIterator<'static>>(),
+        assert_send_sync::<OwnedBddPathIterator>(),
+        assert_send_sync::<ValuationsOfClauseIterator>(),
+        assert_send_sync::<BddValuationIterator>(),
+        // shared references are what the threads of (2) actually hold
+        assert_send_sync::<&'static Bdd>(),
+        assert_send_sync::<&'static BddVariableSet>(),
+        assert_send_sync::<Arc<Vec<Bdd>>>(),
+        assert_send_sync::<Arc<BddVariableSet>>(),
+    ]
+}
+
+// ------------------------------------------------------------------------------------------------
+// (2) programs
+
+/// a local of a thread
+enum V {
+    B(Bdd),
+    T(String),
+}
+
+fn fnv(text: &str) -> u64 {
+    let mut h: u64 = 0xcbf29ce484222325;
+    for b in text.as_bytes() { h ^= *b as u64; h = h.wrapping_mul(0x100000001b3); }
+    h
+}
+
+fn parse_vars(a: &str) -> Vec<BddVariable> {
+    if a == "~" { vec![] } else { a.split('.').map(|x| var(x.parse().unwrap())).collect() }
+}
+fn parse_pv(a: &str) -> Vec<(BddVariable, bool)> {
+    if a == "~" { return vec![]; }
+    a.split('.').map(|x| { let (v, b) = x.split_once('=').unwrap(); (var(v.parse().unwrap()), b == "1") }).collect()
+}
+fn parse_bits(a: &str) -> Vec<bool> { if a == "~" { vec![] } else { a.chars().map(|c| c == '1').collect() } }
+
+fn fmt_pv_list(xs: &[BddPartialValuation], n: usize) -> String {
+    let mut out = format!("{}#", xs.len());
+    for (i, x) in xs.iter().enumerate() {
+        if i >= 24 { out.push_str("+"); break; }
+        if i > 0 { out.push('.'); }
+        out.push_str(&fmt_partial(x, n).replace(';', "+"));
+    }
+    out
+}
+fn fmt_opt_val(v: Option<BddValuation>) -> String { match v { Some(v) => fmt_valuation(&v), None => s("none") } }
+fn fmt_opt_pv(v: Option<BddPartialValuation>, n: usize) -> String { match v { Some(v) => fmt_partial(&v, n).replace(';', "+"), None => s("none") } }
+
+/// One instruction `name:arg,arg,…` on the shared pool / variable set and the thread's own locals.
+/// `Err(())` = an operand reference dangles or is not a Bdd (outcome `stuck`).
+fn exec(pool: &[Bdd], vs: &BddVariableSet, locals: &[V], ins: &str) -> Result<V, ()> {
+    let (name, rest) = ins.split_once(':').unwrap_or((ins, ""));
+    let a: Vec<&str> = if rest.is_empty() { vec![] } else { rest.split(',').collect() };
+    let bdd = |r: &str| -> Result<&Bdd, ()> {
+        let i: usize = r[1..].parse().map_err(|_| ())?;
+        match &r[..1] {
+            "p" => pool.get(i).ok_or(()),
+            "l" => match locals.get(i) { Some(V::B(b)) => Ok(b), _ => Err(()) },
+            _ => Err(()),
+        }
+    };
+    let n = vs.num_vars() as usize;
+    let b = |x: Bdd| Ok(V::B(x));
+    let t = |x: String| Ok(V::T(x));
+    let ob = |x: Option<Bdd>| match x { Some(x) => Ok(V::B(x)), None => Ok(V::T(s("none"))) };
+    match name {
+        "and" => b(bdd(a[0])?.and(bdd(a[1])?)),
+        "or" => b(bdd(a[0])?.or(bdd(a[1])?)),
+        "xor" => b(bdd(a[0])?.xor(bdd(a[1])?)),
+        "imp" => b(bdd(a[0])?.imp(bdd(a[1])?)),
+        "iff" => b(bdd(a[0])?.iff(bdd(a[1])?)),
+        "and_not" => b(bdd(a[0])?.and_not(bdd(a[1])?)),
+        "not" => b(bdd(a[0])?.not()),
+        "ite" => b(Bdd::if_then_else(bdd(a[0])?, bdd(a[1])?, bdd(a[2])?)),
+        "exists" => b(bdd(a[0])?.exists(&parse_vars(a[1]))),
+        "for_all" => b(bdd(a[0])?.for_all(&parse_vars(a[1]))),
+        "project" => b(bdd(a[0])?.project(&parse_vars(a[1]))),
+        "var_exists" => b(bdd(a[0])?.var_exists(var(a[1].parse().unwrap()))),
+        "var_for_all" => b(bdd(a[0])?.var_for_all(var(a[1].parse().unwrap()))),
+        "var_project" => b(bdd(a[0])?.var_project(var(a[1].parse().unwrap()))),
+        "and_exists" => b(Bdd::binary_op_with_exists(bdd(a[0])?, bdd(a[1])?, op_function::and, &parse_vars(a[2]))),
+        "imp_for_all" => b(Bdd::binary_op_with_for_all(bdd(a[0])?, bdd(a[1])?, op_function::imp, &parse_vars(a[2]))),
+        "select" => b(bdd(a[0])?.select(&parse_pv(a[1]))),
+        "restrict" => b(bdd(a[0])?.restrict(&parse_pv(a[1]))),
+        "var_select" => b(bdd(a[0])?.var_select(var(a[1].parse().unwrap()), a[2] == "1")),
+        "var_restrict" => b(bdd(a[0])?.var_restrict(var(a[1].parse().unwrap()), a[2] == "1")),
+        "pick" => b(bdd(a[0])?.pick(&parse_vars(a[1]))),
+        "var_pick" => b(bdd(a[0])?.var_pick(var(a[1].parse().unwrap()))),
+        "pick_random" => b(bdd(a[0])?.pick_random(&parse_vars(a[1]), &mut CoinRng::new(parse_bits(a[2])))),
+        "substitute" => b(bdd(a[0])?.substitute(var(a[1].parse().unwrap()), bdd(a[2])?)),
+        "dnf_rt" => b(vs.mk_dnf(&bdd(a[0])?.to_dnf())),
+        "odnf_rt" => b(vs.mk_dnf(&bdd(a[0])?.to_optimized_dnf())),
+        "cnf_rt" => b(vs.mk_cnf(&bdd(a[0])?.to_cnf())),
+        "str_rt" => b(Bdd::from_string(&bdd(a[0])?.to_string())),
+        "bytes_rt" => { let bytes = bdd(a[0])?.to_bytes(); b(Bdd::from_bytes(&mut &bytes[..])) }
+        "expr_rt" => ob(vs.safe_eval_expression(&bdd(a[0])?.to_boolean_expression(vs))),
+        "evalstr" => b(vs.eval_expression_string(a[0])),
+        "mk_var" => b(vs.mk_var_by_name(&format!("x{}", a[0]))),
+        "mk_exactly_k" => b(vs.mk_sat_exactly_k(a[0].parse().unwrap(), &parse_vars(a[1]))),
+        "mk_up_to_k" => b(vs.mk_sat_up_to_k(a[0].parse().unwrap(), &parse_vars(a[1]))),
+        "mk_clause" => b(vs.mk_conjunctive_clause(&BddPartialValuation::from_values(&parse_pv(a[0])))),
+        "transfer" => ob(vs.transfer_from(bdd(a[0])?, vs)),
+        "of_valuation" => b(Bdd::from(BddValuation::new(parse_bits(a[0])))),
+        // ---- results that are not Bdds
+        "to_dnf" => t(fmt_pv_list(&bdd(a[0])?.to_dnf(), n)),
+        "to_cnf" => t(fmt_pv_list(&bdd(a[0])?.to_cnf(), n)),
+        "to_odnf" => t(fmt_pv_list(&bdd(a[0])?.to_optimized_dnf(), n)),
+        "sat_clauses" => t(fmt_pv_list(&bdd(a[0])?.sat_clauses().collect::<Vec<_>>(), n)),
+        "sat_vals" => {
+            let all: Vec<String> = bdd(a[0])?.sat_valuations().map(|v| fmt_valuation(&v)).collect();
+            t(format!("{}#{}", all.len(), all.iter().take(24).cloned().collect::<Vec<_>>().join(".")))
+        }
+        "to_string" => t(bdd(a[0])?.to_string()),
+        "to_bytes" => t(bdd(a[0])?.to_bytes().iter().map(|x| format!("{:02x}", x)).collect()),
+        "expr_text" => t(format!("{}", bdd(a[0])?.to_boolean_expression(vs)).replace(' ', "_")),
+        "expr_support" => {
+            let mut names: Vec<String> = bdd(a[0])?.to_boolean_expression(vs).support_set().into_iter().collect();
+            names.sort();
+            t(format!("[{}]", names.join(".")))
+        }
+        "dot" => t(format!("dot{}", fnv(&bdd(a[0])?.to_dot_string(vs, a[1] == "1")))),
+        "card" => t(bdd(a[0])?.exact_cardinality().to_string()),
+        "clause_card" => t(bdd(a[0])?.exact_clause_cardinality().to_string()),
+        "fcard" => t(format!("f{:016x}", bdd(a[0])?.cardinality().to_bits())),
+        "witness" => t(fmt_opt_val(bdd(a[0])?.sat_witness())),
+        "first_val" => t(fmt_opt_val(bdd(a[0])?.first_valuation())),
+        "last_val" => t(fmt_opt_val(bdd(a[0])?.last_valuation())),
+        "most_pos" => t(fmt_opt_val(bdd(a[0])?.most_positive_valuation())),
+        "most_neg" => t(fmt_opt_val(bdd(a[0])?.most_negative_valuation())),
+        "random_val" => t(fmt_opt_val(bdd(a[0])?.random_valuation(&mut CoinRng::new(parse_bits(a[1]))))),
+        "first_clause" => t(fmt_opt_pv(bdd(a[0])?.first_clause(), n)),
+        "last_clause" => t(fmt_opt_pv(bdd(a[0])?.last_clause(), n)),
+        "most_fixed" => t(fmt_opt_pv(bdd(a[0])?.most_fixed_clause(), n)),
+        "most_free" => t(fmt_opt_pv(bdd(a[0])?.most_free_clause(), n)),
+        "necessary" => t(fmt_opt_pv(bdd(a[0])?.necessary_clause(), n)),
+        "random_clause" => t(fmt_opt_pv(bdd(a[0])?.random_clause(&mut CoinRng::new(parse_bits(a[1]))), n)),
+        "support" => {
+            let mut v: Vec<usize> = bdd(a[0])?.support_set().into_iter().map(|x| x.to_index()).collect();
+            v.sort();
+            t(format!("[{}]", fmt_usizes(&v)))
+        }
+        "size_per_var" => {
+            let mut v: Vec<(usize, usize)> = bdd(a[0])?.size_per_variable().into_iter().map(|(x, c)| (x.to_index(), c)).collect();
+            v.sort();
+            t(format!("[{}]", v.iter().map(|(x, c)| format!("{}={}", x, c)).collect::<Vec<_>>().join(".")))
+        }
+        "names" => {
+            let mut v: Vec<(usize, String)> = vs.variable_name_assignment().into_iter().map(|(x, c)| (x.to_index(), c)).collect();
+            v.sort();
+            let by_name = vs.var_by_name(&format!("x{}", a[0])).map(|x| x.to_index());
+            t(format!("[{}]{}", v.iter().map(|(x, c)| format!("{}={}", x, c)).collect::<Vec<_>>().join("."), fmt_optvar(by_name)))
+        }
+        "props" => {
+            let x = bdd(a[0])?;
+            t(format!("sz{}.{}{}{}{}.{}", x.size(), x.is_true() as u8, x.is_false() as u8, x.is_clause() as u8, x.is_valuation() as u8,
+                if x.validate().is_ok() { "valid" } else { "invalid" }))
+        }
+        "eval" => t(s(if bdd(a[0])?.eval_in(&BddValuation::new(parse_bits(a[1]))) { "1" } else { "0" })),
+        "cmp" => {
+            let (x, y) = (bdd(a[0])?, bdd(a[1])?);
+            t(format!("{:?}.{:?}.{:?}.{}", Bdd::cmp_size(x, y), Bdd::cmp_cardinality(x, y), Bdd::cmp_structural(x, y), (x == y) as u8))
+        }
+        _ => panic!("unknown instruction {}", ins),
+    }
+}
+
+fn operand_refs(ins: &str) -> Vec<&str> {
+    let rest = ins.split_once(':').map(|x| x.1).unwrap_or("");
+    rest.split(',').filter(|r| r.len() >= 2 && (r.starts_with('p') || r.starts_with('l')) && r[1..].chars().all(|c| c.is_ascii_digit())).collect()
+}
+
+fn show(v: &Result<Option<V>, ()>) -> String {
+    match v {
+        Ok(Some(V::B(b))) => fmt_bdd(b),
+        Ok(Some(V::T(t))) => if t.is_empty() { s("~") } else { t.clone() },
+        Ok(None) => s("panic"),
+        Err(()) => s("stuck"),
+    }
+}
+
+/// runs one program; the result texts, oldest first. After every instruction the operands are
+/// compared with their text before the call (`!operand-changed` is appended to the result if not).
+fn exec_prog(pool: &[Bdd], vs: &BddVariableSet, prog: &str) -> Vec<String> {
+    let mut locals: Vec<V> = Vec::new();
+    let mut texts: Vec<String> = Vec::new();
+    if prog == "~" { return texts; }
+    for ins in prog.split(';') {
+        let operand_text = |locals: &[V]| -> Vec<String> {
+            operand_refs(ins).iter().map(|r| {
+                let i: usize = r[1..].parse().unwrap();
+                match (&r[..1], locals.get(i)) {
+                    ("p", _) => pool.get(i).map(fmt_bdd).unwrap_or_default(),
+                    (_, Some(V::B(b))) => fmt_bdd(b),
+                    _ => String::new(),
+                }
+            }).collect()
+        };
+        let before = operand_text(&locals);
+        let r: Result<Option<V>, ()> = match catch(|| exec(pool, vs, &locals, ins)) {
+            None => Ok(None),
+            Some(Ok(v)) => Ok(Some(v)),
+            Some(Err(())) => Err(()),
+        };
+        let mut text = show(&r);
+        if operand_text(&locals) != before { text.push_str("!operand-changed"); }
+        texts.push(text);
+        locals.push(match r { Ok(Some(v)) => v, Ok(None) => V::T(s("panic")), Err(()) => V::T(s("stuck")) });
+    }
+    texts
+}
+
+fn parse_pool(text: &str) -> Vec<Bdd> {
+    if text == "~" { return vec![]; }
+    text.split('/').map(Bdd::from_string).collect()
+}
+fn var_set(n: usize) -> BddVariableSet {
+    let names: Vec<String> = (0..n).map(|i| format!("x{}", i)).collect();
+    BddVariableSet::new(&names.iter().map(|x| x.as_str()).collect::<Vec<_>>())
+}
+fn hashes(results: &[Vec<String>]) -> String {
+    if results.is_empty() { return s("~"); }
+    results.iter().map(|r| if r.is_empty() { s("~") } else { r.iter().map(|x| fnv(x).to_string()).collect::<Vec<_>>().join(".") }).collect::<Vec<_>>().join("/")
+}
+fn texts(results: &[Vec<String>]) -> String {
+    if results.is_empty() { return s("~"); }
+    results.iter().map(|r| if r.is_empty() { s("~") } else { r.join(";") }).collect::<Vec<_>>().join("/")
+}
+
+fn run_sequential(pool: &[Bdd], vs: &BddVariableSet, progs: &[&str]) -> Vec<Vec<String>> {
+    progs.iter().map(|p| exec_prog(pool, vs, p)).collect()
+}
+
+fn run_threads(pool: &Arc<Vec<Bdd>>, vs: &Arc<BddVariableSet>, progs: &[&str]) -> Vec<Vec<String>> {
+    let barrier = Arc::new(Barrier::new(progs.len()));
+    let handles: Vec<_> = progs.iter().map(|p| {
+        let (pool, vs, barrier, p) = (pool.clone(), vs.clone(), barrier.clone(), p.to_string());
+        std::thread::spawn(move || {
+            barrier.wait();
+            // three repetitions inside the thread keep the threads overlapping for longer
+            let first = exec_prog(&pool, &vs, &p);
+            for _ in 0..2 {
+                if exec_prog(&pool, &vs, &p) != first { return vec![s("repetition-in-thread-differs")]; }
+            }
+            first
+        })
+    }).collect();
+    handles.into_iter().map(|h| h.join().unwrap_or_else(|_| vec![s("thread-died")])).collect()
+}
+
+/// `c19 single`: reads `<n> <pool> <progs>` from stdin, runs sequentially, prints the hashes
+fn single() {
+    std::panic::set_hook(Box::new(|_| {}));
+    let mut input = String::new();
+    std::io::stdin().read_to_string(&mut input).unwrap();
+    let f: Vec<&str> = input.split_whitespace().collect();
+    let pool = parse_pool(f[1]);
+    let vs = var_set(f[0].parse().unwrap());
+    let progs: Vec<&str> = f[2].split('/').collect();
+    println!("{}", hashes(&run_sequential(&pool, &vs, &progs)));
+}
+
+fn run_child(n: &str, pool: &str, progs: &str) -> String {
+    let exe = match std::env::current_exe() { Ok(e) => e, Err(_) => return s("child-no-exe") };
+    let mut child = match Command::new(exe).arg("single").stdin(Stdio::piped()).stdout(Stdio::piped()).stderr(Stdio::null()).spawn() {
+        Ok(c) => c,
+        Err(_) => return s("child-spawn-failed"),
+    };
+    {
+        let mut stdin = child.stdin.take().unwrap();
+        let _ = stdin.write_all(format!("{} {} {}\n", n, pool, progs).as_bytes());
+    }
+    match child.wait_with_output() {
+        Ok(o) if o.status.success() => { let t = String::from_utf8_lossy(&o.stdout).trim().to_string(); if t.is_empty() { s("child-empty") } else { t } }
+        _ => s("child-died"),
+    }
+}
+
+pub fn run(key: &str, a: &[String], out: &mut Out) {
+    match key {
+        "C19.types" => {
+            let names = type_assertions();
+            out.case(key, a, &[s("ok"), names.len().to_string()]);
+        }
+        "C19.run" => {
+            // n pool progs => seq-texts thread-hashes second-run-hashes child-hashes pool-after
+            let pool = parse_pool(&a[1]);
+            let n: usize = a[0].parse().unwrap();
+            let progs: Vec<&str> = a[2].split('/').collect();
+            let (pool, vs) = (Arc::new(pool), Arc::new(var_set(n)));
+            let seq = run_sequential(&pool, &vs, &progs);
+            let thr = run_threads(&pool, &vs, &progs);
+            let again = run_sequential(&pool, &vs, &progs);
+            let child = run_child(&a[0], &a[1], &a[2]);
+            let after = if pool.is_empty() { s("~") } else { pool.iter().map(fmt_bdd).collect::<Vec<_>>().join("/") };
+            out.case(key, a, &[texts(&seq), hashes(&thr), hashes(&again), child, after]);
+        }
+        _ => panic!("unknown key {}", key),
+    }
+}
+
+// ------------------------------------------------------------------------------------------------
+// generators
+
+fn gen_vars(rng: &mut Rng64, n: usize) -> String {
+    let k = rng.below(4) as usize;
+    let v: Vec<String> = (0..k).map(|_| rng.below(n as u64).to_string()).collect();
+    if v.is_empty() { s("~") } else { v.join(".") }
+}
+fn gen_pv(rng: &mut Rng64, n: usize) -> String {
+    let mut v: Vec<String> = vec![];
+    for i in 0..n { if rng.chance(1, 3) { v.push(format!("{}={}", i, rng.below(2))); } }
+    // `select`/`restrict` accept any order
+    if v.len() > 1 && rng.bool() { v.reverse(); }
+    if v.is_empty() { s("~") } else { v.join(".") }
+}
+fn gen_bits(rng: &mut Rng64, n: usize) -> String { fmt_bools(&(0..n).map(|_| rng.bool()).collect::<Vec<_>>()) }
+fn gen_expr(rng: &mut Rng64, n: usize, depth: u32) -> String {
+    if depth == 0 || rng.chance(1, 4) {
+        return match rng.below(8) { 0 => s("true"), 1 => s("false"), _ => format!("x{}", rng.below(n as u64)) };
+    }
+    match rng.below(6) {
+        0 => format!("!{}", gen_expr(rng, n, depth - 1)),
+        k => format!("({}{}{})", gen_expr(rng, n, depth - 1), ["&", "|", "^", "=>", "<=>"][(k - 1) as usize], gen_expr(rng, n, depth - 1)),
+    }
+}
+
+const BIN: [&str; 6] = ["and", "or", "xor", "imp", "iff", "and_not"];
+const UN_B: [&str; 7] = ["not", "dnf_rt", "odnf_rt", "cnf_rt", "str_rt", "bytes_rt", "expr_rt"];
+const UN_T: [&str; 26] = ["to_dnf", "to_cnf", "to_odnf", "sat_clauses", "sat_vals", "to_string", "to_bytes", "expr_text", "expr_support",
+    "card", "clause_card", "fcard", "witness", "first_val", "last_val", "most_pos", "most_neg", "first_clause", "last_clause",
+    "most_fixed", "most_free", "necessary", "support", "size_per_var", "props", "transfer"];
+
+/// a random program of `len` instructions over a pool of `pool_len` Bdds with `n` variables
+fn gen_prog(rng: &mut Rng64, n: usize, pool_len: usize, len: usize) -> String {
+    let mut is_bdd: Vec<bool> = vec![];
+    let mut out: Vec<String> = vec![];
+    for _ in 0..len {
+        let bdd_locals: Vec<usize> = (0..is_bdd.len()).filter(|i| is_bdd[*i]).collect();
+        let r = |rng: &mut Rng64| -> String {
+            if rng.chance(1, 150) { return format!("l{}", is_bdd.len() + 3); }           // dangling reference
+            if !bdd_locals.is_empty() && rng.bool() { format!("l{}", rng.pick(&bdd_locals)) }
+            else if pool_len == 0 { s("p0") } else { format!("p{}", rng.below(pool_len as u64)) }
+        };
+        let v = |rng: &mut Rng64| rng.below(n.max(1) as u64).to_string();
+        let (ins, b) = match rng.below(20) {
+            0..=4 => (format!("{}:{},{}", rng.pick(&BIN), r(rng), r(rng)), true),
+            5 => (format!("ite:{},{},{}", r(rng), r(rng), r(rng)), true),
+            6..=7 => (format!("{}:{}", rng.pick(&UN_B), r(rng)), true),
+            8 => (format!("{}:{},{}", rng.pick(&["exists", "for_all", "project", "pick"]), r(rng), gen_vars(rng, n.max(1))), true),
+            9 => (format!("{}:{},{}", rng.pick(&["var_exists", "var_for_all", "var_project", "var_pick"]), r(rng), v(rng)), true),
+            10 => (format!("{}:{},{}", rng.pick(&["select", "restrict"]), r(rng), gen_pv(rng, n)), true),
+            11 => (format!("{}:{},{},{}", rng.pick(&["var_select", "var_restrict"]), r(rng), v(rng), rng.below(2)), true),
+            12 => (format!("substitute:{},{},{}", r(rng), v(rng), r(rng)), true),
+            13 => match rng.below(4) {
+                0 => (format!("and_exists:{},{},{}", r(rng), r(rng), gen_vars(rng, n.max(1))), true),
+                1 => (format!("imp_for_all:{},{},{}", r(rng), r(rng), gen_vars(rng, n.max(1))), true),
+                2 => (format!("pick_random:{},{},{}", r(rng), gen_vars(rng, n.max(1)), gen_bits(rng, 6)), true),
+                _ => (format!("cmp:{},{}", r(rng), r(rng)), false),
+            },
+            14 => match rng.below(6) {
+                0 => (format!("evalstr:{}", gen_expr(rng, n.max(1), 3)), true),
+                1 => (format!("mk_var:{}", v(rng)), true),
+                2 => (format!("mk_exactly_k:{},{}", rng.below(3), gen_vars(rng, n.max(1))), true),
+                3 => (format!("mk_up_to_k:{},{}", rng.below(3), gen_vars(rng, n.max(1))), true),
+                4 => (format!("mk_clause:{}", gen_pv(rng, n)), true),
+                _ => (format!("of_valuation:{}", gen_bits(rng, n)), true),
+            },
+            15 => match rng.below(4) {
+                0 => (format!("eval:{},{}", r(rng), gen_bits(rng, n)), false),
+                1 => (format!("random_val:{},{}", r(rng), gen_bits(rng, n + 2)), false),
+                2 => (format!("random_clause:{},{}", r(rng), gen_bits(rng, n + 2)), false),
+                _ => (format!("dot:{},{}", r(rng), rng.below(2)), false),
+            },
+            16 => (format!("names:{}", rng.below(n as u64 + 2)), false),
+            _ => { let name = *rng.pick(&UN_T); (format!("{}:{}", name, r(rng)), name == "transfer") }
+        };
+        out.push(ins);
+        is_bdd.push(b);
+    }
+    if out.is_empty() { s("~") } else { out.join(";") }
+}
+
+fn gen_pool(rng: &mut Rng64, n: usize, len: usize) -> String {
+    let mut v: Vec<String> = vec![];
+    for i in 0..len {
+        let mut b = match rng.below(10) {
+            0 => bdd_of_tt(n, &vec![false; 1 << n]),
+            1 => bdd_of_tt(n, &vec![true; 1 << n]),
+            _ => random_bdd(rng, n),
+        };
+        if rng.chance(1, 6) { b = noncanon_variant(rng, &b); }
+        // rarely an element over another variable count: operations on it panic, in every run alike
+        if i > 0 && rng.chance(1, 40) { b = random_bdd(rng, n + 1); }
+        v.push(fmt_bdd(&b));
+    }
+    if v.is_empty() { s("~") } else { v.join("/") }
+}
+
+pub fn gen(tier: Tier, rng: &mut Rng64, out: &mut Out) {
+    let thorough = tier == Tier::Thorough;
+    run("C19.types", &[s("Bdd,BddVariableSet,BddValuation,BddPartialValuation,BddVariable,BddPointer,BddNode,BooleanExpression,iterators")], out);
+    // every operation of the menu at least once, two threads running the same program
+    for n in [1usize, 3, 5] {
+        let pool = gen_pool(rng, n, 4);
+        let mut all: Vec<String> = vec![];
+        for name in BIN { all.push(format!("{}:p0,p1", name)); }
+        all.push(s("ite:p0,p1,p2"));
+        for name in UN_B { all.push(format!("{}:p3", name)); }
+        for name in UN_T { all.push(format!("{}:l0", name)); }
+        for name in ["exists", "for_all", "project", "pick"] { all.push(format!("{}:p2,0", name)); }
+        for name in ["var_exists", "var_for_all", "var_project", "var_pick"] { all.push(format!("{}:l1,0", name)); }
+        all.extend([s("select:p0,0=1"), s("restrict:p1,0=0"), s("var_select:p2,0,1"), s("var_restrict:p3,0,0"), s("substitute:p0,0,p1"),
+            s("and_exists:p0,p1,0"), s("imp_for_all:p2,p3,0"), s("pick_random:p0,0,0101"), s("cmp:p0,p1"), s("evalstr:(x0=>!x0)"),
+            s("mk_var:0"), s("mk_exactly_k:1,0"), s("mk_up_to_k:1,0"), s("mk_clause:0=1"), format!("of_valuation:{}", "1".repeat(n)),
+            format!("eval:p0,{}", "0".repeat(n)), s("random_val:p1,010101010"), s("random_clause:p2,101010101"), s("dot:p3,1"), s("names:0"), s("not:l99")]);
+        let prog = all.join(";");
+        run("C19.run", &[n.to_string(), pool, format!("{}/{}", prog, prog)], out);
+    }
+    let rounds = if thorough { 40000 } else { 2500 };
+    for round in 0..rounds {
+        if out.full() { break; }
+        let n = 1 + rng.below(8) as usize;
+        let pool_len = 1 + rng.below(6) as usize;
+        let pool = gen_pool(rng, n, pool_len);
+        let threads = match round % 4 { 0 => 2, 1 => 2 + rng.below(3), 2 => 4 + rng.below(5), _ => 8 + rng.below(9) } as usize;
+        let max_len = if thorough { 24 } else { 12 };
+        // threads run different programs, or all the same one (maximal contention on the same operands)
+        let same = rng.chance(1, 5);
+        let first_len = 1 + rng.below(max_len) as usize;
+        let first = gen_prog(rng, n, pool_len, first_len);
+        let progs: Vec<String> = (0..threads).map(|i| {
+            if same || (i > 0 && rng.chance(1, 6)) { first.clone() } else {
+                let len = if rng.chance(1, 30) { 0 } else { 1 + rng.below(max_len) as usize };
+                gen_prog(rng, n, pool_len, len)
+            }
+        }).collect();
+        run("C19.run", &[n.to_string(), pool, progs.join("/")], out);
+    }
+}
+
+fn main() {
+    let args: Vec<String> = std::env::args().collect();
+    if args.len() >= 2 && args[1] == "single" { single(); return; }
+    harness_main(gen, run)
+}
